@@ -51,6 +51,7 @@ import (
 // Register adds this area's suite.
 func Register(s Suites) {
 	s.Add("C06", runPipeHT)
+	s.Add("C06", runPipeHTBibo)
 }
 
 // Case is a pipe.Case (same parameter prefix, same content generator) plus the level class.
